@@ -1267,6 +1267,17 @@ func genSites(repo, outdir string) {
 						}
 					case *ast.CallExpr:
 						name := typeString(n.Fun)
+						// a method called on a value whose type is a map underneath (util.Set): its iteration order is the map's
+						if sel, ok := n.Fun.(*ast.SelectorExpr); ok {
+							if t := pkg.TypesInfo.TypeOf(sel.X); t != nil {
+								if _, isMap := t.Underlying().(*types.Map); isMap && sel.Sel.Name != "In" && sel.Sel.Name != "Len" && sel.Sel.Name != "Get" && sel.Sel.Name != "Set" {
+									sites = append(sites, fmt.Sprintf("mapcall %s %s %s", rel, fn, name))
+								}
+							}
+						}
+						if name == "slices.Collect" || name == "slices.AppendSeq" {
+							sites = append(sites, fmt.Sprintf("collect %s %s %s(%s)", rel, fn, name, argText(n)))
+						}
 						switch {
 						case name == "panic" || strings.HasPrefix(name, "logx.Panic"):
 							sites = append(sites, fmt.Sprintf("panic %s %s %s(%s)", rel, fn, name, argText(n)))
